@@ -32,13 +32,14 @@ VERS = {
     'om.AB': {1: ['NoIntra'], 2: ['Diblock', 'AB', 1.0, 1, 1]},
     'om.BB': {1: ['SingleSite'], 2: ['FJC', 3, 1.0]},
     'kT': {1: 1.0, 2: 1.25},
+    'sig.AB': {1: 0.0, 2: 0.125},       # contact distance of the cross pair: arithmetic mean + this (2 = a non-additive mixture)
 }
 PAIRKEY = {'AA': ('A', 'A'), 'AB': ('A', 'B'), 'BB': ('B', 'B')}
 
 
 def cfg_text(editable, maxmissing, maxprisms, maxsteps, nxt, edge=True):
     return '\n'.join([
-        'CONSTANTS Items <- MC_Items', 'Optional <- MC_Optional', 'Editable <- %s' % editable,
+        'CONSTANTS Items <- MC_Items', 'Optional <- MC_Optional', 'Editable <- %s' % editable, 'Resets <- MC_Resets', 'Needs <- MC_Needs',
         'MaxMissing = %d' % maxmissing, 'MaxPrisms = %d' % maxprisms, 'MaxSteps = %d' % maxsteps,
         'INIT MCInit', 'NEXT %s' % nxt, 'VIEW View', 'CHECK_DEADLOCK FALSE',
         'INVARIANTS CreateRaisesIffIncomplete NeverStartsOnPartialSystem SnapshotFaithful SweepEqualsFresh',
@@ -70,7 +71,9 @@ def fingerprint(o, depth=0):
 def sys_from_cfg(c):
     """the systems.py description of a complete abstract configuration"""
     n, dr = DOMAINS[c['domain']]
-    return {'types': list(T), 'kT': VERS['kT'][c['kT']], 'dr': dr, 'length': n,
+    extra = VERS['sig.AB'][c.get('sig.AB', 1)]
+    over = {'A-B': (VERS['d.A'][c['d.A']] + VERS['d.B'][c['d.B']]) / 2.0 + extra} if extra else {}
+    return {'types': list(T), 'kT': VERS['kT'][c['kT']], 'dr': dr, 'length': n, 'sigma_override': over,
             'rho': {t: VERS['rho.' + t][c['rho.' + t]] for t in T},
             'diam': {t: VERS['d.' + t][c['d.' + t]] for t in T},
             'pot': {'%s-%s' % PAIRKEY[p]: VERS['pot.' + p][c['pot.' + p]] for p in PAIRKEY},
@@ -94,8 +97,10 @@ class SysAdapter(Adapter):
         s = pyPRISM.System(list(T))       # kT has a default (1.0) = version 1
         w = {'sys': s, 'prisms': [], 'results': [], 'init': state, 'hist': []}
         for item, v in sorted(state['cfg'].items()):
-            if v and item != 'kT':
+            if v and item not in ('kT', 'sig.AB'):
                 self.edit(w, item, v)
+        if state['cfg'].get('sig.AB', 1) == 2:
+            self.edit(w, 'sig.AB', 2)
         return w
 
     def clone(self, w):
@@ -126,6 +131,11 @@ class SysAdapter(Adapter):
                 s.domain.dr = dr
             else:
                 s.domain = pyPRISM.Domain(length=n, dr=dr)
+        elif kind == 'sig':
+            a, b = PAIRKEY[which]
+            if self.coin(w, item, v):
+                a, b = b, a
+            s.diameter.sigma[a, b] = (s.diameter[PAIRKEY[which][0]] + s.diameter[PAIRKEY[which][1]]) / 2.0 + VERS[item][v]
         elif kind == 'rho':
             s.density[which] = VERS[item][v]
         elif kind == 'd':
@@ -220,7 +230,7 @@ class SysAdapter(Adapter):
         out = {'r': r, 'k': k, 'kT': sc['kT'], 'pairs': {}}
         for p, (a, b) in PAIRKEY.items():
             key = '%s-%s' % (a, b)
-            sigma = (sc['diam'][a] + sc['diam'][b]) / 2.0
+            sigma = sc['sigma_override'].get(key, (sc['diam'][a] + sc['diam'][b]) / 2.0)
             U = systems.make_potential(sc['pot'][key])
             if U.sigma is None:               # an explicitly given sigma wins, else the arithmetic mean
                 U.sigma = sigma
@@ -241,6 +251,11 @@ class SysAdapter(Adapter):
                 exp = VERS[item][v] if v else None
                 if got != exp:
                     out.append(('SystemState', {'item': item, 'expected': exp, 'observed': got}))
+            if kind == 'sig' and want['cfg']['d.A'] and want['cfg']['d.B']:
+                exp = (VERS['d.A'][want['cfg']['d.A']] + VERS['d.B'][want['cfg']['d.B']]) / 2.0 + VERS[item][v]
+                for got in (s.diameter['A', 'B'], s.diameter['B', 'A']):
+                    if got is None or abs(got - exp) > 1e-12:
+                        out.append(('SystemState', {'item': item, 'expected': exp, 'observed': got}))
         if len(want['prisms']) != len(w['prisms']):
             out.append(('PrismCount', {'expected': len(want['prisms']), 'observed': len(w['prisms'])}))
             return out
